@@ -434,6 +434,70 @@ def judge_readonly(res, ci):
                 res.nontrivial += 1
 
 
+# ---- objects outside any sheet: a refused text handed over with its own namespaces leaves the object as it was ----------
+NSP, NSQ = {'p': 'http://p'}, {'q': 'http://q'}
+DETACHED = [
+    ('Selector', lambda: css.Selector(('p|a b', dict(NSP)))),
+    ('SelectorList', lambda: css.SelectorList(('p|a, b', dict(NSP)))),
+    ('CSSStyleRule', lambda: css.CSSStyleRule(selectorText=('p|a, b', dict(NSP)), style='x:y')),
+]
+DETACHED_ARGS = [('q|b, $', NSQ), ('q|y >', NSQ), ('q|b, ', NSQ), ('r|b', NSQ), ('$', NSQ), ('', NSQ), ('q|b{', NSQ), ('p|b >', NSP), ('q|b', NSQ), ('*|c', {}),
+                 'q|b', 'b >', '$']
+
+
+def _detached_obs(o):
+    out = [o.selectorText, getattr(o, 'wellformed', None)]
+    sels = [o] if isinstance(o, css.Selector) else list(getattr(o, 'selectorList', o))
+    for x in sels:
+        out.append((x.selectorText, tuple(x.specificity), tuple(sorted(dict(x._namespaces.items()).items())) if hasattr(x._namespaces, 'items') else repr(x._namespaces)))
+    if isinstance(o, css.CSSStyleRule):
+        out.append(o.cssText)
+    return out
+
+
+def judge_detached(res, ci):
+    cname, make = DETACHED[ci]
+    for ai, arg in enumerate(DETACHED_ARGS):
+        refused = False  # the verdict of the raising mode decides what the log-only mode has to leave alone
+        for raising in (True, False):
+            guard.pristine()
+            cssutils.log.raiseExceptions = raising
+            case = {'kind': 'detached', 'class': ci, 'classname': cname, 'mi': int(raising), 'ai': ai, 'arg': repr(arg), 'raising': raising}
+            res.evaluations += 1
+            res.transitions += 1
+            res.clauses['C11.rollback'] += 1
+            try:
+                with guard.watchdog(10):
+                    o = make()
+                    before = _detached_obs(o)
+                    try:
+                        o.selectorText = (arg[0], dict(arg[1])) if isinstance(arg, tuple) else arg
+                        out = 'returned'
+                    except xml.dom.DOMException as e:
+                        out = type(e).__name__
+                    except Exception as e:
+                        out = 'foreign:' + type(e).__name__
+                    after = _detached_obs(o)
+                    accepted = None
+                    if out == 'returned' and after != before:
+                        # accepted iff the object now reads like a fresh one built from the new text
+                        accepted = True
+            except guard.Timeout:
+                res.violation('C11.rollback', f'timeout|detached {cname}.selectorText=', case, 'answer', 'timeout')
+                continue
+            finally:
+                cssutils.log.raiseExceptions = True
+            res.outcomes.add(h64(('det', cname, ai, raising, out, after != before)))
+            res.validated += 1
+            if raising:
+                refused = out != 'returned'
+            if refused:
+                res.counters['rejected'] += 1
+                res.nontrivial += 1
+                if after != before:
+                    res.violation('C11.rollback', f'detached {cname}.selectorText=|changed-although-refused|{out.split(":")[0]}|{"raising" if raising else "log-only"}', case, repr(before), repr(after))
+
+
 # ----------------------------------------------------------------------------------------
 
 
@@ -444,6 +508,8 @@ def plan(tier):
             shards.append(('calls', [t, mi]))
     for ci in range(len(READONLY)):
         shards.append(('readonly', ci))
+    for ci in range(len(DETACHED)):
+        shards.append(('detached', ci))
     return shards
 
 
@@ -490,6 +556,9 @@ def run_shard(shard, tier, seed):
     elif kind == 'readonly':
         judge_readonly(res, arg)
         res.states += 1
+    elif kind == 'detached':
+        judge_detached(res, arg)
+        res.states += 1
     guard.pristine()
     return res
 
@@ -500,7 +569,7 @@ def replay(case, tier, seed):
         judge(res, tuple(case['prior']) if case['prior'] else None, case['target'], case['mi'], case['ai'])
     else:
         r2 = Result(seed)
-        judge_readonly(r2, case['class'])
+        (judge_detached if case['kind'] == 'detached' else judge_readonly)(r2, case['class'])
         for full, v in r2.violations.items():
             if v['case']['mi'] == case['mi'] and v['case']['ai'] == case['ai']:
                 res.violations[full] = v
